@@ -50,6 +50,8 @@ pub enum RcOp
     /// (barrier, same order), so the last two clones of each entity are dropped as simultaneously as the machine
     /// allows; one collection afterwards must take every one of them
     Race(u8),
+    /// `App::setup_auto_despawn()` once more ("can be added to multiple plugins without conflict"): nothing changes
+    SetupAgain,
 }
 
 thread_local!
@@ -366,6 +368,7 @@ fn run_inner(case: &RcCase, out: &mut RcOutcome)
                 }
                 hit(out, "C10:burst");
             }
+            RcOp::SetupAgain => { app.setup_auto_despawn(); hit(out, "C10:setup_again"); }
             RcOp::Race(k) =>
             {
                 let n = 40 * (*k as usize).clamp(1, 4);
@@ -569,7 +572,7 @@ pub fn decode(bytes: &[u8], max_ops: usize, threads: bool) -> RcCase
     let n_ops = below(byte(&mut u), max_ops + 1);
     for _ in 0..n_ops
     {
-        let k = below(byte(&mut u), 36);
+        let k = below(byte(&mut u), 38);
         let a = byte(&mut u) % 12;
         let b = byte(&mut u) % 12;
         let op = match k
@@ -589,6 +592,7 @@ pub fn decode(bytes: &[u8], max_ops: usize, threads: bool) -> RcCase
             30 | 31 => RcOp::GcFaultOn(a),
             32 | 33 => RcOp::Burst(b),
             34 | 35 => if threads { RcOp::Race(1 + b % 4) } else { RcOp::Gc },
+            36 | 37 => RcOp::SetupAgain,
             21 | 22 | 23 => RcOp::StoreOn(a, b),
             _ =>
             {
